@@ -16,7 +16,7 @@ C18-STRNONE  Decision table of the `!s` / str() elision.  A value whose static t
            "dropped only if conversion in (None*, 's') and the operand is statically str and cannot be None [and there is no format spec where the
            outcome is the bare operand]".
 """
-import ast, itertools
+import ast, itertools, re
 
 from ..core import Rule, AnalysisError, node_src
 from ..engine import pyflow
@@ -824,4 +824,1217 @@ def rule_strnone(ctx):
     r.positive_control(bad == {'ExprNodes.FormattedValueNode.analyse_types:conv=None', 'ExprNodes.FormattedValueNode.analyse_types:conv=s',
                                'ExprNodes.FormattedValueNode.generate_result_code:conv=s', 'Optimize.OptimizeBuiltinCalls.visit_FormattedValueNode:conv=r'},
                        'str-typed operand treated as text without excluding None; !r value replaced by str()')
+    return r
+
+
+# =================================================================================================== fourth round: Python side of the f-string machinery
+# C18-FOLD    decision table of ConstantFolding.visit_FormattedValueNode (the compile-time shortcut): the node is replaced by its bare operand only for a string
+#             literal with conversion !s / none and no format spec, and by the text of a constant only for an int constant without format spec.
+# C18-EMIT    FormattedValueNode.generate_result_code: the spec-ignoring helper (__Pyx_PyObject_FormatSimple*) is selected only on paths where the node has no
+#             format spec; the emitted call passes the value first and the spec second, the order in which every helper hands them to PyObject_Format.
+# C18-ARITY   the %-rewrite consumes exactly the operands of the tuple: no rewrite for `(a, b) * n`; a surplus operand makes _build_fstring give up.
+# C18-JOINPY  JoinedStrNode.generate_evaluation_code: every part is counted in the result length (literal / repeated / run-time length, repetition factors applied in
+#             every emitted shape) and in the result kind unless it is a C number formatted with a non-character spec; UnicodeNode.get_ustring_kind agrees with
+#             CPython's kind boundaries; the "cannot get larger" shortcut is taken for the largest kind only.
+# C18-TYPES   default_format_spec per C type gives str(x); bint routes exactly the falsy spec to the True/False helper; external typedefs hand themselves on.
+# C18-MERGE   `lit + f-string` / `f-string + lit` / `f + f` keep the operand order.
+def explore_runs(fn, args, attr_values, class_consts, inline, marks_of_call, max_runs=4000):
+    """like explore(), but returns the Run objects (valuation, stores) together with the result"""
+    out = []
+    stack = [[]]
+    while stack:
+        dec = stack.pop()
+        run = Run(dec, attr_values, class_consts, inline, marks_of_call)
+        try:
+            ret = run.call_function(fn, args)
+        except NeedDecision:
+            stack.append(dec + [True])
+            stack.append(dec + [False])
+            if len(stack) + len(out) > max_runs:
+                raise AnalysisError('%s: too many paths' % fn.name)
+            continue
+        except Unmodelled as ex:
+            raise AnalysisError('%s: cannot be interpreted: %s' % (fn.name, ex))
+        out.append((run, ret))
+    return out
+
+
+def _describe_val(val):
+    def one(k, v):
+        kind, path = k.split(':', 1)
+        if kind == 'N':
+            return '%s is %sNone' % (path, '' if v else 'not ')
+        if kind == 'T':
+            return '%s%s' % ('' if v else 'not ', path)
+        return '%s(%s)=%s' % (kind, path, v)
+    return ', '.join(one(k, v) for k, v in val.items()) or 'no tests'
+
+
+def fold_cases(cf_cls, convs, rel=OPTIMIZE):
+    fn = _find_method(cf_cls, 'visit_FormattedValueNode', rel)
+    out = []
+    for conv in convs:
+        for run, ret in explore_runs(fn, [Obj('self'), Obj('node')], {'node.conversion_char': Const(conv)}, {}, {}, _conv_marks):
+            val = run.val
+            key = 'Optimize.%s.visit_FormattedValueNode:conv=%s' % (cf_cls.name, conv)
+            stored = run.stored.get('node.format_spec')
+            no_spec = (isinstance(stored, Const) and stored.v is None) or (stored is None and val.get('N:node.format_spec') is True)
+            prob = None
+            if isinstance(stored, Const) and stored.v is None and val.get('N:node.format_spec') is not True and not (
+                    val.get('T:node.format_spec.is_string_literal') is True and val.get('T:node.format_spec.value') is False):
+                prob = "the format spec is discarded (node.format_spec = None) on a path that did not establish an empty string literal (%s): f'{x:>5}' would lose its spec" % _describe_val(val)
+                out.append((key, '%s: %s -> spec discarded' % (key, _describe_val(val)), prob, fn.lineno))
+                continue
+            if isinstance(ret, Obj) and ret.path == 'node':
+                outcome = 'node kept'
+            elif isinstance(ret, Obj) and ret.path == 'node.value':
+                outcome = 'bare operand'
+                if conv not in (None, 's'):
+                    prob = "the formatted value is replaced by its operand although the conversion !%s must be applied (f\"{'ab'!r}\" is \"'ab'\", not 'ab')" % conv
+                elif not no_spec:
+                    prob = 'the formatted value is replaced by its operand on a path that did not exclude a format spec'
+                elif val.get('T:node.value.is_string_literal') is not True:
+                    prob = 'the formatted value is replaced by its operand on a path that did not establish that the operand is a string literal (%s)' % _describe_val(val)
+            elif isinstance(ret, Obj) and ret.path.startswith('new:'):
+                outcome = 'folded to a literal'
+                is_int = any(k.startswith('T:isinstance(') and k.rstrip(')').replace(' ', '').endswith(',int') and v is True for k, v in val.items())
+                has_const = any(k.startswith('T:') and 'has_constant_result' in k and v is True for k, v in val.items())
+                if not no_spec:
+                    prob = "a constant operand is folded to str(value) on a path that did not exclude a format spec (f'{5:03}' is '005')"
+                elif not (is_int and has_const):
+                    prob = 'an operand is folded to str(value) on a path that did not establish an int constant (%s): only for int (and bool) is the text the same under every conversion' % _describe_val(val)
+            else:
+                raise AnalysisError('%s returns %r' % (key, ret))
+            out.append((key, '%s: %s -> %s' % (key, _describe_val(val), outcome), prob, fn.lineno))
+    return out
+
+
+FOLD_POSITIVE = '''
+class ConstantFolding:
+    def visit_FormattedValueNode(self, node):
+        self.visitchildren(node)
+        if node.value.has_constant_result() and isinstance(node.value.constant_result, int):
+            return ExprNodes.UnicodeNode(node.value.pos, value=EncodedString(str(node.value.constant_result)))
+        if node.format_spec is None:
+            if node.value.is_string_literal:
+                return node.value
+        return node
+'''
+
+
+def rule_fold(ctx):
+    r = Rule('C18-FOLD', 'ConstantFolding.visit_FormattedValueNode: a formatted value is replaced by its bare operand only for a string literal with conversion !s / none and no format spec, '
+             'and by the text of a constant only for an int constant without format spec (decision table over all valuations of its tests, per conversion character)', floor=4)
+    fv = _find_class(ctx.parse(EXPRNODES), 'FormattedValueNode', EXPRNODES)
+    cf = _find_class(ctx.parse(OPTIMIZE), 'ConstantFolding', OPTIMIZE)
+    convs = conversion_domain(fv)
+    cases = fold_cases(cf, convs)
+    seen = set()
+    n_short = 0
+    for key, sample, prob, line in cases:
+        if key not in seen:
+            seen.add(key)
+            r.inst(key, sample=sample)
+        if 'node kept' not in sample:
+            n_short += 1
+    reported = set()
+    for key, sample, prob, line in cases:
+        if prob and key not in reported:
+            reported.add(key)
+            r.violate(key, OPTIMIZE, line, prob)
+    if n_short < 2:
+        raise AnalysisError('ConstantFolding.visit_FormattedValueNode: the folding shortcuts were not found (%d)' % n_short)
+    pc = fold_cases(ast.parse(FOLD_POSITIVE).body[0], [None, 's', 'r'], 'positive-control')
+    bad = {k.rsplit(':', 1)[1] for k, _, p, _ in pc if p}
+    r.positive_control(bad == {'conv=None', 'conv=s', 'conv=r'}, 'constant folded in spite of a format spec; string literal unwrapped under !r')
+    return r
+
+
+# --------------------------------------------------------------------------------------------------- C18-EMIT
+def _attr_sources(fn, name):
+    """self.<attr> roots that the local `name` is computed from (through local assignments, flow-insensitive)"""
+    defs = {}
+    for n in walk_no_nested(fn):
+        if isinstance(n, ast.Assign):
+            for t in n.targets:
+                for x in _bound_names(t):
+                    defs.setdefault(x, []).append(n.value)
+        elif isinstance(n, ast.AugAssign) and isinstance(n.target, ast.Name):
+            defs.setdefault(n.target.id, []).append(n.value)
+    seen, todo, roots = set(), [name], set()
+    while todo:
+        x = todo.pop()
+        if x in seen:
+            continue
+        seen.add(x)
+        for e in defs.get(x, ()):
+            for a in ast.walk(e):
+                if _is_self_attr(a):
+                    roots.add(a.attr)
+                elif isinstance(a, ast.Name) and a.id != 'self':
+                    todo.append(a.id)
+    return roots
+
+
+def _emit_template(gen):
+    """the emitted `<result> = <func>(<a0>, <a1>); ...` template of generate_result_code whose callee is a variable: -> (node, callee name, [arg placeholder nodes])"""
+    from . import iface
+    from ..engine.cutil import match_paren, split_args
+    import re as _re2
+    for n in walk_no_nested(gen):
+        if not isinstance(n, (ast.BinOp, ast.JoinedStr)):
+            continue
+        t = iface.str_template(n)
+        if t is None:
+            continue
+        text, ph = t
+        m = _re2.search(r'%s\(' % iface.PLACEHOLDER, text)
+        if not m:
+            continue
+        k = text[:m.start() + 1].count(iface.PLACEHOLDER) - 1
+        rp = match_paren(text, m.end() - 1)
+        if rp < 0 or not isinstance(ph[k], ast.Name):
+            continue
+        args = []
+        idx = k + 1
+        ok = True
+        for a in split_args(text[m.end():rp]):
+            if a.strip() != iface.PLACEHOLDER:
+                ok = False
+                break
+            args.append(ph[idx])
+            idx += 1
+        if ok and len(args) == 2:
+            return n, ph[k].id, args
+    return None
+
+
+def _c_format_roles(cat, name, depth=0):
+    """for a C helper (s, f) -> does it hand parameter 0 as the object and parameter 1 as the spec to PyObject_Format (directly or through a helper)?  -> True / False / None (no call found)"""
+    import re as _re2
+    from ..engine.cutil import match_paren, split_args, strip_c_comments
+    decls = [d for d in cat.lookup(name) if d.kind in ('func', 'macro') and d.params is not None and (d.body or d.kind == 'macro')]
+    verdict = None
+    for d in decls:
+        names = d.param_names() if d.kind == 'func' else [p.strip() for p in d.params]
+        if len(names) != 2:
+            continue
+        body = strip_c_comments(d.body or d.raw or '')
+        for m in _re2.finditer(r'\b(PyObject_Format|__Pyx_PyObject_Format\w*|_Py\w+_FormatAdvancedWriter)\s*\(', body):
+            callee = m.group(1)
+            if callee == name:
+                continue
+            rp = match_paren(body, m.end() - 1)
+            if rp < 0:
+                continue
+            cargs = [_re2.sub(r'[()\s]', '', a) for a in split_args(body[m.end():rp])]
+            if callee.endswith('FormatAdvancedWriter'):
+                ok = len(cargs) >= 3 and cargs[1] == names[0] and cargs[2] == names[1]
+            else:
+                ok = len(cargs) == 2 and cargs[0] == names[0] and cargs[1] == names[1]
+            verdict = ok if verdict is None else (verdict and ok)
+    return verdict
+
+
+EMIT_POSITIVE = '''
+class FormattedValueNode:
+    def generate_result_code(self, code):
+        value_result = self.value.py_result()
+        value_is_unicode = self.value.type.is_pystr_type and not self.value.may_be_none()
+        if self.format_spec and not value_is_unicode:
+            format_func = '__Pyx_PyObject_Format'
+            format_spec = self.format_spec.py_result()
+        else:
+            format_func = '__Pyx_PyObject_FormatSimple'
+            format_spec = code.name_in_module_state(Naming.empty_unicode)
+        code.putln("%s = %s(%s, %s); %s" % (self.result(), format_func, format_spec, value_result, code.error_goto_if_null(self.result(), self.pos)))
+'''
+
+
+def emit_facts(cls, cat):
+    gen = _find_method(cls, 'generate_result_code', EXPRNODES)
+    found = _emit_template(gen)
+    if found is None:
+        raise AnalysisError('FormattedValueNode.generate_result_code: the emitted `func(value, spec)` template was not found')
+    node, fvar, args = found
+    out = []
+    key = 'ExprNodes.FormattedValueNode.generate_result_code'
+    # ---- argument roles
+    roots = []
+    for a in args:
+        if not isinstance(a, ast.Name):
+            raise AnalysisError('%s: emitted argument %s is not a local name' % (key, ast.unparse(a)))
+        roots.append(_attr_sources(gen, a.id))
+    conv_roots = {'find_conversion_func'}
+    out.append((key + ':conversion-wraps-value', bool(conv_roots & roots[0]) and not (conv_roots & roots[1]), node.lineno,
+                'the !s/!r/!a conversion call is applied to %s; it must wrap the value argument (%s) and nothing else' % (
+                    'the format spec argument' if conv_roots & roots[1] else 'no argument', ast.unparse(args[0]))))
+    ok = 'value' in roots[0] and 'format_spec' not in roots[0] and 'format_spec' in roots[1] and 'value' not in roots[1]
+    out.append((key + ':argument-order', ok, node.lineno,
+                'the emitted call %s(%s, %s) passes an argument computed from self.%s first and one computed from self.%s second; every helper takes (object, format spec) and '
+                'hands them to PyObject_Format in that order' % (fvar, ast.unparse(args[0]), ast.unparse(args[1]), '/'.join(sorted(roots[0])) or '?', '/'.join(sorted(roots[1])) or '?')))
+    # ---- helper names and their C roles
+    bases, suffixes = set(), set()
+    for a in walk_no_nested(gen):
+        if isinstance(a, ast.Assign) and any(isinstance(x, ast.Name) and x.id == fvar for x in a.targets) and isinstance(a.value, ast.Constant):
+            bases.add(a.value.value)
+        elif isinstance(a, ast.AugAssign) and isinstance(a.target, ast.Name) and a.target.id == fvar and isinstance(a.value, ast.Constant):
+            suffixes.add(a.value.value)
+    if cat is not None:
+        for nm in sorted(bases | {b + s for b in bases for s in suffixes}):
+            v = _c_format_roles(cat, nm)
+            if v is None:
+                continue
+            out.append(('%s:c-roles:%s' % (key, nm), v, node.lineno, 'C helper %s does not hand its first parameter as the object and its second as the format spec to PyObject_Format' % nm))
+    # ---- the spec-ignoring helper only without a format spec (path facts)
+    simple = {b for b in bases if 'Simple' in b}
+    if not simple or len(bases) < 2:
+        raise AnalysisError('%s: helper names %s: the spec-ignoring helper was not recognised' % (key, sorted(bases)))
+    bad_paths = []
+    sites = [0]
+
+    def transfer(n, state):
+        if isinstance(n, ast.Assign) and any(isinstance(x, ast.Name) and x.id == fvar for x in n.targets) and isinstance(n.value, ast.Constant):
+            return frozenset(f for f in state if not (isinstance(f, tuple) and f[0] == 'FF')) | {('FF', n.value.value)}
+        if isinstance(n, ast.stmt) and any(x is node for x in ast.walk(n)):
+            sites[0] += 1
+            ff = [f[1] for f in state if isinstance(f, tuple) and f[0] == 'FF']
+            if any(x in simple for x in ff):
+                no_spec = any(isinstance(f, tuple) and len(f) == 4 and f[0] == '?' and f[1] == 'self.format_spec' and f[2] is False for f in state)
+                if not no_spec:
+                    bad_paths.append(sorted('%s%s' % ('' if f[2] else 'not ', f[1]) for f in state if isinstance(f, tuple) and len(f) == 4 and f[0] == '?'))
+        return state
+    pyflow.Flow(transfer).run(gen)
+    if not sites[0]:
+        raise AnalysisError('%s: the emitting statement was not reached by the flow analysis' % key)
+    out.append((key + ':simple-needs-no-spec', not bad_paths, node.lineno,
+                '%s is emitted on a path that did not establish `not self.format_spec` (%s): that helper returns str/int/float operands unformatted, the format spec would be ignored '
+                "(f'{s:>5}' -> s)" % ('/'.join(sorted(simple)), '; '.join(', '.join(p) for p in bad_paths[:2]) or '-')))
+    return out
+
+
+def rule_emit(ctx):
+    r = Rule('C18-EMIT', 'FormattedValueNode.generate_result_code: the spec-ignoring helper __Pyx_PyObject_FormatSimple* is selected only on paths without a format spec; the emitted call passes '
+             '(value, format spec) in the order in which every helper hands them to PyObject_Format', floor=4)
+    fv = _find_class(ctx.parse(EXPRNODES), 'FormattedValueNode', EXPRNODES)
+    for key, ok, line, msg in emit_facts(fv, ctx.cat):
+        r.inst(key, sample=key)
+        if not ok:
+            r.violate(key, EXPRNODES, line, msg)
+    pc = emit_facts(ast.parse(EMIT_POSITIVE).body[0], None)
+    r.positive_control({k.rsplit(':', 1)[1] for k, ok, _, _ in pc if not ok} == {'argument-order', 'simple-needs-no-spec', 'conversion-wraps-value'},
+                       'spec and value swapped; FormatSimple chosen although a spec is present; no conversion call around the value')
+    return r
+
+
+# --------------------------------------------------------------------------------------------------- C18-ARITY
+ARITY_POSITIVE = '''
+class ConstantFolding:
+    def visit_ModNode(self, node):
+        self.visitchildren(node)
+        if isinstance(node.operand1, ExprNodes.UnicodeNode) and isinstance(node.operand2, ExprNodes.TupleNode):
+            fstring = self._build_fstring(node.operand1.pos, node.operand1.value, node.operand2.args)
+            if fstring is not None:
+                return fstring
+        return self.visit_BinopNode(node)
+
+    def _build_fstring(self, pos, ustring, format_args):
+        args = iter(format_args)
+        substrings = []
+        for s in re.split(self.rx, ustring):
+            substrings.append(s)
+        try:
+            next(args)
+        except StopIteration: pass
+        else:
+            warning(pos, "Too many arguments for format placeholders", level=1)
+        return ExprNodes.JoinedStrNode(pos, values=substrings)
+'''
+
+
+def _returns_none_always(stmts):
+    """every path through the statements ends in `return None` / bare return"""
+    state = {'ok': True, 'seen': False}
+
+    def transfer(n, st):
+        if isinstance(n, ast.Return):
+            state['seen'] = True
+            if not (n.value is None or (isinstance(n.value, ast.Constant) and n.value.value is None)):
+                state['ok'] = False
+        return st
+    fl = pyflow.Flow(transfer)
+    o = fl.block(stmts, {frozenset()})
+    return state['ok'] and state['seen'] and not o.normal and not o.breaks and not o.continues
+
+
+def arity_facts(cls):
+    out = []
+    mod = _find_method(cls, 'visit_ModNode', OPTIMIZE)
+    key = 'Optimize.%s.visit_ModNode:tuple-multiplier' % cls.name
+    sites = []
+
+    def transfer(n, state):
+        if isinstance(n, ast.stmt) and not isinstance(n, (ast.If, ast.For, ast.While, ast.Try)):
+            for c in ast.walk(n):
+                if isinstance(c, ast.Call) and isinstance(c.func, ast.Attribute) and c.func.attr == '_build_fstring':
+                    for a in c.args:
+                        if isinstance(a, ast.Attribute) and a.attr == 'args':
+                            owner = ast.unparse(a.value)
+                            guarded = any(isinstance(f, tuple) and len(f) == 4 and f[0] == '?' and f[1] == owner + '.mult_factor' and f[2] is False for f in state)
+                            sites.append((c.lineno, owner, guarded))
+        return state
+    pyflow.Flow(transfer).run(mod)
+    if not sites:
+        raise AnalysisError('%s.visit_ModNode: no call _build_fstring(..., <tuple>.args) found' % cls.name)
+    bad = [s for s in sites if not s[2]]
+    out.append((key, not bad, sites[0][0],
+                "the %%-format rewrite takes `%s.args` as the complete operand sequence on a path that did not exclude `%s.mult_factor`: for `'%%s %%s' %% ((a, b) * 2)` the tuple has four "
+                "items and CPython raises TypeError, the rewrite formats a and b" % (sites[0][1], sites[0][1])))
+    # surplus operands
+    bf = _find_method(cls, '_build_fstring', OPTIMIZE)
+    key2 = 'Optimize.%s._build_fstring:surplus-operand' % cls.name
+    params = [a.arg for a in bf.args.args]
+    iters = {}
+    for n in walk_no_nested(bf):
+        if isinstance(n, ast.Assign) and isinstance(n.value, ast.Call) and isinstance(n.value.func, ast.Name) and n.value.func.id == 'iter' and len(n.value.args) == 1 \
+                and isinstance(n.value.args[0], ast.Name) and n.value.args[0].id in params:
+            for t in n.targets:
+                if isinstance(t, ast.Name):
+                    iters[t.id] = n.value.args[0].id
+    loops = [i for i, s in enumerate(bf.body) if isinstance(s, ast.For)]
+    if not loops or not iters:
+        raise AnalysisError('%s._build_fstring: the chunk loop / the operand iterator was not found' % cls.name)
+    checked = None
+    tail = bf.body[loops[-1] + 1:]
+    for si, s in enumerate(tail):
+        if isinstance(s, ast.Try) and any(isinstance(c, ast.Call) and isinstance(c.func, ast.Name) and c.func.id == 'next' and c.args and isinstance(c.args[0], ast.Name) and c.args[0].id in iters
+                                          for b in s.body for c in ast.walk(b)):
+            catches = any(h.type is None or 'StopIteration' in ast.unparse(h.type) for h in s.handlers)
+            body_rest = [b for b in s.body if not (isinstance(b, ast.Expr) and isinstance(b.value, ast.Call) and isinstance(b.value.func, ast.Name) and b.value.func.id == 'next')]
+            success = body_rest + list(s.orelse) + tail[si + 1:]        # what runs when next() found a surplus operand
+            checked = (s.lineno, catches and bool(success) and _returns_none_always(success))
+        elif isinstance(s, ast.If) and any(isinstance(c, ast.Call) and isinstance(c.func, ast.Name) and c.func.id == 'len' for c in ast.walk(s.test)) \
+                and any(isinstance(x, ast.Name) and x.id in set(iters.values()) for x in ast.walk(s.test)):
+            checked = (s.lineno, _returns_none_always(s.body) or (bool(s.orelse) and _returns_none_always(s.orelse)))
+    out.append((key2, bool(checked and checked[1]), checked[0] if checked else bf.lineno,
+                "after the last placeholder _build_fstring does not give up when an operand is left over (no `next(%s)` whose success path returns None): '%%s' %% (a, b) is rewritten to "
+                "f'{a}' although CPython raises TypeError('not all arguments converted')" % '/'.join(sorted(iters))))
+    return out
+
+
+def rule_arity(ctx):
+    r = Rule('C18-ARITY', "the %-format rewrite consumes exactly the operands of the tuple: visit_ModNode rewrites only tuples without a multiplier, _build_fstring gives up when an operand is left "
+             "over after the last placeholder (too few operands and starred operands are part of C18-TRN's give-up obligation)", floor=2)
+    cf = _find_class(ctx.parse(OPTIMIZE), 'ConstantFolding', OPTIMIZE)
+    for key, ok, line, msg in arity_facts(cf):
+        r.inst(key, sample=key)
+        if not ok:
+            r.violate(key, OPTIMIZE, line, msg)
+    pc = arity_facts(ast.parse(ARITY_POSITIVE).body[0])
+    r.positive_control(all(not ok for _, ok, _, _ in pc) and len(pc) == 2, 'tuple multiplier ignored; surplus operand only warned about')
+    return r
+
+
+# --------------------------------------------------------------------------------------------------- C18-MERGE
+def merge_facts(cls):
+    fn = _find_method(cls, 'visit_AddNode', OPTIMIZE)
+    side = {}
+    for n in walk_no_nested(fn):
+        if isinstance(n, ast.Assign) and len(n.targets) == 1:
+            t, v = n.targets[0], n.value
+            pairs = list(zip(t.elts, v.elts)) if isinstance(t, ast.Tuple) and isinstance(v, ast.Tuple) and len(t.elts) == len(v.elts) else [(t, v)]
+            for a, b in pairs:
+                if isinstance(a, ast.Name) and isinstance(b, ast.Attribute) and isinstance(b.value, ast.Name) and b.value.id == fn.args.args[1].arg and b.attr in ('operand1', 'operand2'):
+                    side[a.id] = 'left' if b.attr == 'operand1' else 'right'
+
+    def side_of(e):
+        s = {side[x.id] for x in ast.walk(e) if isinstance(x, ast.Name) and x.id in side}
+        return s.pop() if len(s) == 1 else None
+    out = []
+
+    def values_of(e):
+        return side[e.value.id] if isinstance(e, ast.Attribute) and e.attr == 'values' and isinstance(e.value, ast.Name) and e.value.id in side else None
+    for n in walk_no_nested(fn):
+        cont = meth = item = where = None
+        if isinstance(n, ast.Call) and isinstance(n.func, ast.Attribute) and values_of(n.func.value) and n.func.attr in ('append', 'extend', 'insert'):
+            cont, meth, item = values_of(n.func.value), n.func.attr, (n.args[-1] if n.args else None)
+            if meth == 'insert':
+                where = 'front' if isinstance(n.args[0], ast.Constant) and n.args[0].value == 0 else 'position %s' % ast.unparse(n.args[0])
+            else:
+                where = 'back'
+        elif isinstance(n, ast.AugAssign) and isinstance(n.op, ast.Add) and values_of(n.target):
+            cont, meth, item, where = values_of(n.target), 'extend', n.value, 'back'
+        elif isinstance(n, ast.Assign) and len(n.targets) == 1 and isinstance(n.targets[0], ast.Subscript) and values_of(n.targets[0].value) and isinstance(n.targets[0].slice, ast.Slice):
+            sl = n.targets[0].slice
+            cont, meth, item = values_of(n.targets[0].value), 'insert', n.value
+            zero = lambda x: x is None or (isinstance(x, ast.Constant) and x.value == 0)
+            where = 'front' if zero(sl.lower) and isinstance(sl.upper, ast.Constant) and sl.upper.value == 0 else 'slice %s' % ast.unparse(sl)
+        if cont is None:
+            continue
+        other = side_of(item) if item is not None else None
+        if other is None or other == cont:
+            continue
+        ok = (cont == 'left' and where == 'back') or (cont == 'right' and where == 'front')
+        key = 'Optimize.%s.visit_AddNode:%s-into-%s:%s' % (cls.name, other, cont, meth)
+        out.append((key, ok, n.lineno, "`%s`: the parts of the %s operand are put at the %s of the parts of the %s operand; string concatenation keeps the operand order"
+                    % (ast.unparse(n)[:80], other, where, cont)))
+    return out
+
+
+def rule_merge(ctx):
+    r = Rule('C18-MERGE', "ConstantFolding.visit_AddNode joins `f-string + f-string`, `f-string + literal` and `literal + f-string` into one f-string: the parts of the left operand stay in "
+             "front of the parts of the right operand", floor=3)
+    cf = _find_class(ctx.parse(OPTIMIZE), 'ConstantFolding', OPTIMIZE)
+    facts = merge_facts(cf)
+    for key, ok, line, msg in facts:
+        r.inst(key, sample=key)
+        if not ok:
+            r.violate(key, OPTIMIZE, line, msg)
+    pc = merge_facts(ast.parse('class C:\n    def visit_AddNode(self, node):\n        operand1, operand2 = node.operand1, node.operand2\n        operand2.values.append(operand1)\n        return operand2\n').body[0])
+    r.positive_control(len(pc) == 1 and not pc[0][1], 'left operand appended behind the parts of the right operand')
+    return r
+
+
+# --------------------------------------------------------------------------------------------------- C18-JOINPY
+# CPython (unicodeobject.h): a str is stored with 1, 2 or 4 bytes per character - the smallest that holds its largest character (0xff, 0xffff, 0x10ffff); ASCII-only
+# strings (<= 0x7f) are a sub-case of kind 1.  __Pyx_PyUnicode_KIND_04 / get_ustring_kind use 0 for ASCII.
+def kind_of_char(c):
+    return 0 if c < 0x80 else 1 if c < 0x100 else 2 if c < 0x10000 else 4
+
+
+class _KEval:
+    """evaluator of UnicodeNode.get_ustring_kind for one class of `largest character` (a checker-side interpreter of the if-chain)"""
+    def __init__(self, c):
+        self.c = c
+
+    def ev(self, e, env):
+        if isinstance(e, ast.Constant):
+            return e.value
+        if isinstance(e, ast.Name):
+            if e.id in env:
+                return env[e.id]
+            raise AnalysisError('get_ustring_kind: unknown name %s' % e.id)
+        if isinstance(e, ast.Call):
+            src = ast.unparse(e)
+            if isinstance(e.func, ast.Attribute) and e.func.attr == 'isascii' and not e.args:
+                return self.c < 0x80
+            if isinstance(e.func, ast.Name) and e.func.id == 'ord' and len(e.args) == 1 and isinstance(e.args[0], ast.Call) and isinstance(e.args[0].func, ast.Name) and e.args[0].func.id == 'max':
+                return self.c
+            if isinstance(e.func, ast.Name) and e.func.id == 'max' and len(e.args) == 1:
+                return ('maxchar',)
+            raise AnalysisError('get_ustring_kind: call %s is not modelled' % src)
+        if isinstance(e, ast.Compare) and len(e.ops) == 1:
+            a, b = self.ev(e.left, env), self.ev(e.comparators[0], env)
+            if not (isinstance(a, (int, bool)) and isinstance(b, (int, bool))):
+                raise AnalysisError('get_ustring_kind: comparison %s is not modelled' % ast.unparse(e))
+            op = type(e.ops[0])
+            table = {ast.Lt: a < b, ast.LtE: a <= b, ast.Gt: a > b, ast.GtE: a >= b, ast.Eq: a == b, ast.NotEq: a != b}
+            if op not in table:
+                raise AnalysisError('get_ustring_kind: operator in %s' % ast.unparse(e))
+            return table[op]
+        if isinstance(e, ast.UnaryOp) and isinstance(e.op, ast.Not):
+            return not self.ev(e.operand, env)
+        if isinstance(e, ast.BoolOp):
+            vals = [self.ev(v, env) for v in e.values]
+            return all(vals) if isinstance(e.op, ast.And) else any(vals)
+        raise AnalysisError('get_ustring_kind: expression %s is not modelled' % ast.unparse(e))
+
+    def run(self, stmts, env):
+        for s in stmts:
+            if isinstance(s, ast.Return):
+                return ('ret', self.ev(s.value, env))
+            if isinstance(s, ast.If):
+                r = self.run(s.body if self.ev(s.test, env) else s.orelse, env)
+                if r is not None:
+                    return r
+            elif isinstance(s, ast.Assign) and len(s.targets) == 1 and isinstance(s.targets[0], ast.Name):
+                env[s.targets[0].id] = self.ev(s.value, env)
+            elif isinstance(s, ast.Expr) and isinstance(s.value, ast.Constant):
+                pass
+            else:
+                raise AnalysisError('get_ustring_kind: statement %s is not modelled' % type(s).__name__)
+        return None
+
+
+def ustring_kind_table(fn):
+    lits = {n.value for n in ast.walk(fn) if isinstance(n, ast.Constant) and isinstance(n.value, int) and not isinstance(n.value, bool) and n.value > 4}
+    pts = {0, 0x7f, 0x80, 0xff, 0x100, 0xffff, 0x10000, 0x10ffff}
+    for c in lits:
+        pts |= {c - 1, c, c + 1}
+    out = []
+    for c in sorted(p for p in pts if 0 <= p <= 0x10ffff):
+        r = _KEval(c).run(fn.body, {})
+        if r is None:
+            raise AnalysisError('get_ustring_kind returns nothing for a largest character of 0x%x' % c)
+        out.append((c, r[1]))
+    return out
+
+
+def _and_conjuncts(e, truth=True):
+    """facts implied by `e` being true: [(text, truth)]"""
+    if isinstance(e, ast.BoolOp) and isinstance(e.op, ast.And):
+        return [f for v in e.values for f in _and_conjuncts(v)]
+    neg = False
+    while isinstance(e, ast.UnaryOp) and isinstance(e.op, ast.Not):
+        neg = not neg
+        e = e.operand
+    return [(ast.unparse(e), not neg)]
+
+
+def _path_facts(state, local_ands):
+    facts = set()
+    for f in state:
+        if isinstance(f, tuple) and len(f) == 4 and f[0] == '?':
+            facts.add((f[1], f[2]))
+            if f[2] and f[1] in local_ands:
+                facts |= set(local_ands[f[1]])
+    return facts
+
+
+def _is_c_exclusion(text, truth):
+    """does the fact say "the type character of the C format spec is not 'c'"?  -> True / False (says it IS 'c') / None (unrelated)"""
+    m = re.fullmatch(r"(.+\.c_format_spec)\.endswith\('c'\)", text)
+    if m:
+        return not truth
+    m = re.fullmatch(r"(.+\.c_format_spec)\[-1:?\] (==|!=) 'c'", text)
+    if m:
+        return (m.group(2) == '!=') == truth
+    m = re.fullmatch(r"'c' (in|not in) (.+\.c_format_spec)(\[-1:?\])?", text)
+    if m and m.group(3):
+        return (m.group(1) == 'not in') == truth
+    return None
+
+
+JOINPY_POSITIVE = '''
+class JoinedStrNode:
+    def generate_evaluation_code(self, code):
+        known_length = 0
+        unknown_lengths = []
+        unknown_nodes = []
+        ustring_kind = 0
+        node_occurrences = defaultdict(int)
+        for i, node in enumerate(self.values):
+            node.generate_evaluation_code(code)
+            if isinstance(node, UnicodeNode):
+                known_length += len(node.value)
+                continue
+            elif isinstance(node, CloneNode) and node.arg in node_occurrences:
+                continue
+            else:
+                node_occurrences[node] += 1
+            unknown_lengths.append(i)
+            if isinstance(node, FormattedValueNode) and node.c_format_spec is not None:
+                pass
+            else:
+                unknown_nodes.append(i)
+        index_repetitions = {i: node_occurrences[node] for i, node in enumerate(self.values) if node_occurrences[node] > 1} or None
+        for i, node in enumerate(self.values):
+            code.putln('%s[%d] = %s;' % (values_array, i, node.py_result()))
+
+        def aggregate(indices, result_temp, result_temp_type, initial_value, cfunc_name, op, factors):
+            code.putln(f"{result_temp} = {initial_value};")
+            if len(indices) == 1:
+                index = indices[0]
+                code.putln(f"{result_temp} {op}= {cfunc_name}({values_array}[{index}]);")
+                return
+            factor_strings = {index: f" * {factors[index]}" for index in factors} if factors else {}
+            result = f' {op} '.join(f"{cfunc_name}({values_array}[{i}]){factor_strings.get(i, '')}" for i in indices)
+            code.putln(f"{result_temp} {op}= {result};")
+        aggregate(unknown_lengths, length_temp, 'Py_ssize_t', known_length, "__Pyx_PyUnicode_GET_LENGTH", '+', index_repetitions)
+        if ustring_kind >= 2:
+            code.putln(f"{ukind_temp} = 4;")
+        else:
+            aggregate(unknown_nodes, ukind_temp, 'int', ustring_kind, "__Pyx_PyUnicode_KIND_04", '|', None)
+        code.putln(f'{self.result()} = __Pyx_PyUnicode_Join({values_array}, {num_items:d}, {length_temp}, {ukind_temp});')
+'''
+
+
+def joinpy_facts(cls, kinds):
+    gen = _find_method(cls, 'generate_evaluation_code', EXPRNODES)
+    key0 = 'ExprNodes.%s.generate_evaluation_code' % cls.name
+    out = []
+    # ---- the two aggregations:  aggregate(<index list>, <temp>, <type>, <initial>, <C function>, <op>, <factors>)
+    agg_def = None
+    for n in gen.body:
+        if isinstance(n, ast.FunctionDef):
+            agg_def = n if any(isinstance(c, ast.Call) and isinstance(c.func, ast.Attribute) and c.func.attr in ('putln', 'put') for c in ast.walk(n)) else agg_def
+    roles = {}
+    calls = {}
+    for n in ast.walk(gen):
+        if isinstance(n, ast.Call) and isinstance(n.func, ast.Name) and agg_def is not None and n.func.id == agg_def.name and len(n.args) >= 6:
+            op = n.args[5].value if isinstance(n.args[5], ast.Constant) else None
+            which = {'+': 'length', '|': 'kind'}.get(op)
+            if which and isinstance(n.args[0], ast.Name) and isinstance(n.args[3], ast.Name):
+                roles[which] = (n.args[0].id, n.args[3].id)
+                calls[which] = n
+    if set(roles) != {'length', 'kind'}:
+        raise AnalysisError('%s: the length (+) and kind (|) aggregations were not found (%s)' % (key0, sorted(roles)))
+    len_list, len_known = roles['length']
+    kind_list, kind_known = roles['kind']
+    # ---- the accounting loop: the first loop over enumerate(self.values)
+    loop = None
+    for n in gen.body:
+        if isinstance(n, ast.For) and isinstance(n.iter, ast.Call) and isinstance(n.iter.func, ast.Name) and n.iter.func.id == 'enumerate' and isinstance(n.target, ast.Tuple) \
+                and any(isinstance(x, ast.Attribute) and x.attr == 'append' and isinstance(x.value, ast.Name) and x.value.id == len_list for x in ast.walk(n)):
+            loop = n
+            break
+    if loop is None:
+        raise AnalysisError('%s: the accounting loop over enumerate(self.values) was not found' % key0)
+    idx = loop.target.elts[0].id
+    local_ands = {}
+    for n in ast.walk(loop):
+        if isinstance(n, ast.Assign) and len(n.targets) == 1 and isinstance(n.targets[0], ast.Name):
+            local_ands[n.targets[0].id] = _and_conjuncts(n.value)
+
+    def transfer(n, state):
+        add = set()
+        if isinstance(n, ast.Assign) and len(n.targets) == 1 and isinstance(n.targets[0], ast.Name) and n.targets[0].id == len_known and isinstance(n.value, ast.BinOp) \
+                and isinstance(n.value.op, ast.Add) and any(isinstance(x, ast.Name) and x.id == len_known for x in (n.value.left, n.value.right)):
+            other = n.value.right if isinstance(n.value.left, ast.Name) and n.value.left.id == len_known else n.value.left
+            n = ast.AugAssign(target=n.targets[0], op=ast.Add(), value=other)
+        if isinstance(n, ast.AugAssign) and isinstance(n.op, ast.Add):
+            if isinstance(n.target, ast.Name) and n.target.id == len_known:
+                add.add(('EV', 'len-known:%s' % ('len' if any(isinstance(c, ast.Call) and isinstance(c.func, ast.Name) and c.func.id == 'len' for c in ast.walk(n.value)) else 'other')))
+            elif isinstance(n.target, ast.Subscript):
+                add.add(('EV', 'occurrence'))
+        elif isinstance(n, ast.Assign) and any(isinstance(t, ast.Name) and t.id == kind_known for t in n.targets):
+            if any(isinstance(c, ast.Call) and isinstance(c.func, ast.Attribute) and c.func.attr == 'get_ustring_kind' for c in ast.walk(n.value)) and \
+                    any(isinstance(x, ast.Name) and x.id == kind_known for x in ast.walk(n.value)):
+                add.add(('EV', 'kind-known'))
+        elif isinstance(n, ast.Expr) and isinstance(n.value, ast.Call) and isinstance(n.value.func, ast.Attribute) and n.value.func.attr == 'append' and isinstance(n.value.func.value, ast.Name) \
+                and n.value.args and isinstance(n.value.args[0], ast.Name) and n.value.args[0].id == idx:
+            if n.value.func.value.id == len_list:
+                add.add(('EV', 'len-index'))
+            elif n.value.func.value.id == kind_list:
+                add.add(('EV', 'kind-index'))
+        return state | add if add else state
+    fl = pyflow.Flow(transfer)
+    o = fl.block(loop.body, {frozenset()})
+    paths = list(o.normal | o.continues)
+    if o.breaks or o.returns:
+        raise AnalysisError('%s: the accounting loop can be left early' % key0)
+    if len(paths) < 3:
+        raise AnalysisError('%s: only %d paths through the accounting loop' % (key0, len(paths)))
+    bad_len, bad_kind, bad_lit = [], [], []
+    for st in paths:
+        ev = {f[1] for f in st if isinstance(f, tuple) and f[0] == 'EV'}
+        facts = _path_facts(st, local_ands)
+        desc = ', '.join(sorted('%s%s' % ('' if t else 'not ', x) for x, t in facts if len(x) < 90))
+        if not (ev & {'len-known:len', 'len-index', 'occurrence'}):
+            bad_len.append(desc)
+        if 'len-known:len' in ev and 'kind-known' not in ev:
+            bad_lit.append(desc)
+        if 'len-known:other' in ev:
+            bad_len.append('a literal part adds something else than len(value): ' + desc)
+        if 'len-index' in ev and 'kind-index' not in ev:
+            has_c = any(re.fullmatch(r'.+\.c_format_spec is not None', x) and t for x, t in facts) or any(re.fullmatch(r'.+\.c_format_spec is None', x) and not t for x, t in facts)
+            excl = [v for v in (_is_c_exclusion(x, t) for x, t in facts) if v is not None]
+            unknown_tests = [x for x, t in facts if 'c_format_spec' in x and ' and ' not in x and ' or ' not in x and _is_c_exclusion(x, t) is None
+                             and not re.fullmatch(r'.+\.c_format_spec is (not )?None', x)]
+            if unknown_tests:
+                raise AnalysisError('%s: a test of c_format_spec is not understood: %s' % (key0, unknown_tests[0]))
+            if not (has_c and excl and all(excl)):
+                bad_kind.append(desc)
+    out.append((key0 + ':length-accounting', not bad_len, loop.lineno,
+                'a part of the f-string is not counted in the length of the result (neither its literal length, nor its run-time length, nor as a repetition of an earlier part) on the path: %s; '
+                '__Pyx_PyUnicode_Join allocates the result with that length and copies every part' % (bad_len[0] if bad_len else '')))
+    out.append((key0 + ':literal-kind', not bad_lit, loop.lineno,
+                'a literal part is counted in the length but its character width (get_ustring_kind) is not folded into the known kind on the path: %s; non-ASCII literal text would be '
+                'truncated to the narrower result' % (bad_lit[0] if bad_lit else '')))
+    out.append((key0 + ':kind-accounting', not bad_kind, loop.lineno,
+                "a part with run-time text is left out of the kind computation on a path that did not establish `c_format_spec is not None` and a type character other than 'c' (%s): only "
+                "C numbers formatted as numbers are ASCII for certain (f'{i:5c}' is not)" % (bad_kind[0] if bad_kind else '')))
+    # ---- repetition factors: taken from the occurrence counts, and applied by every emitted accumulation of the aggregator
+    fac = calls['length'].args[6] if len(calls['length'].args) > 6 else None
+    fac_ok = False
+    if isinstance(fac, ast.Name):
+        clo = dependency_closure(gen, fac)
+        occ = {t.value.id for n in ast.walk(loop) if isinstance(n, ast.AugAssign) and isinstance(n.target, ast.Subscript) and isinstance(n.target.value, ast.Name) for t in [n.target]}
+        fac_ok = bool(clo & occ)
+    out.append((key0 + ':factors-from-occurrences', fac_ok, calls['length'].lineno, 'the length aggregation is not given the repetition counts of the parts that occur several times: their length is counted once'))
+    # the table of repetition counts keeps every part that occurs more than once, with its count
+    if isinstance(fac, ast.Name):
+        for n in ast.walk(gen):
+            if isinstance(n, ast.Assign) and any(isinstance(t, ast.Name) and t.id == fac.id for t in n.targets):
+                comps = [c for c in ast.walk(n.value) if isinstance(c, ast.DictComp)]
+                if len(comps) == 1 and len(comps[0].generators) == 1 and len(comps[0].generators[0].ifs) == 1 and isinstance(comps[0].value, ast.Subscript):
+                    dc = comps[0]
+                    cnt_src = ast.unparse(dc.value)
+
+                    class _Cnt(_KEval):
+                        def ev(self, e, env):
+                            if ast.unparse(e) == cnt_src:
+                                return self.c
+                            return _KEval.ev(self, e, env)
+                    kept = [(c, bool(_Cnt(c).ev(dc.generators[0].ifs[0], {}))) for c in (1, 2, 3, 4)]
+                    out.append((key0 + ':repetition-table', all(k for c, k in kept if c >= 2), n.lineno,
+                                'the table of repetition counts `%s` drops parts that occur %s times: their length is added once only' % (ast.unparse(dc)[:90], [c for c, k in kept if c >= 2 and not k])))
+    fparam = agg_def.args.args[6].arg if len(agg_def.args.args) > 6 else None
+    rparam, oparam = agg_def.args.args[1].arg, agg_def.args.args[5].arg
+    if fparam is None:
+        raise AnalysisError('%s: the aggregator has no factors parameter' % key0)
+    emit_bad = []
+    n_emit = [0]
+
+    def tr2(n, state):
+        if isinstance(n, ast.stmt) and not isinstance(n, (ast.If, ast.For, ast.While, ast.FunctionDef)):
+            reads = {x.id for x in ast.walk(n) if isinstance(x, ast.Name) and isinstance(x.ctx, ast.Load)}
+            if fparam in reads:
+                state = state | {('USED', fparam)}
+            for c in ast.walk(n):
+                if isinstance(c, ast.Call) and isinstance(c.func, ast.Attribute) and c.func.attr in ('putln', 'put') and c.args and isinstance(c.args[0], ast.JoinedStr):
+                    names = [v.value.id for v in c.args[0].values if isinstance(v, ast.FormattedValue) and isinstance(v.value, ast.Name)]
+                    consts = ''.join(v.value for v in c.args[0].values if isinstance(v, ast.Constant))
+                    if rparam in names and oparam in names and '=' in consts:
+                        n_emit[0] += 1
+                        tested = any(isinstance(f, tuple) and len(f) == 4 and f[0] == '?' and fparam in f[3] for f in state)
+                        if ('USED', fparam) not in state and not tested:
+                            emit_bad.append(ast.unparse(c)[:90])
+        return state
+
+    def refine2(test, truth, state):
+        if any(isinstance(x, ast.Name) and x.id == fparam for x in ast.walk(test)):
+            return frozenset(state) | {('USED', fparam)}
+        return state
+    pyflow.Flow(tr2, refine=refine2).run(agg_def)
+    if n_emit[0] < 2:
+        raise AnalysisError('%s: the accumulating statements of the aggregator were not found' % key0)
+    out.append((key0 + ':factors-applied', not emit_bad, agg_def.lineno, 'the aggregator emits `%s` on a path that never looked at its `%s` argument: the length of a part that occurs several times is '
+                'added once (buffer overflow in __Pyx_PyUnicode_Join)' % (emit_bad[0] if emit_bad else '', fparam)))
+    # ---- the emitted call: __Pyx_PyUnicode_Join(<array>, <count>, <length temp>, <kind temp>)  (C18-JOINC verifies the C function under this order of roles)
+    from . import iface
+    from ..engine.cutil import match_paren, split_args
+    call_seen = False
+    for n in ast.walk(gen):
+        if isinstance(n, (ast.JoinedStr, ast.BinOp)):
+            t = iface.str_template(n)
+            if t is None or '__Pyx_PyUnicode_Join(' not in t[0]:
+                continue
+            text, ph = t
+            lp = text.index('__Pyx_PyUnicode_Join(') + len('__Pyx_PyUnicode_Join(') - 1
+            rp = match_paren(text, lp)
+            k = text[:lp].count(iface.PLACEHOLDER)
+            argt = split_args(text[lp + 1:rp])
+            names = []
+            for a in argt:
+                names.append(ast.unparse(ph[k]) if a.strip() == iface.PLACEHOLDER and k < len(ph) else None)
+                k += a.count(iface.PLACEHOLDER)
+            call_seen = True
+            want_len = ast.unparse(calls['length'].args[1])
+            want_kind = ast.unparse(calls['kind'].args[1])
+            ok = len(names) == 4 and names[2] == want_len and names[3] == want_kind
+            out.append((key0 + ':join-call-roles', ok, n.lineno, 'the emitted call passes (%s) to __Pyx_PyUnicode_Join(values, count, length, kind): the third argument must be the temp the lengths are '
+                        'summed into (%s), the fourth the temp the kinds are or-ed into (%s)' % (', '.join(str(x) for x in names), want_len, want_kind)))
+    if not call_seen:
+        raise AnalysisError('%s: the emitted __Pyx_PyUnicode_Join call was not found' % key0)
+    # ---- the values array is filled slot by slot
+    fills = []
+    for lp_ in [x for x in gen.body if isinstance(x, ast.For) and isinstance(x.iter, ast.Call) and isinstance(x.iter.func, ast.Name) and x.iter.func.id == 'enumerate' and isinstance(x.target, ast.Tuple)]:
+        iv, nv = (e.id if isinstance(e, ast.Name) else None for e in lp_.target.elts[:2])
+        for n in ast.walk(lp_):
+            if isinstance(n, (ast.JoinedStr, ast.BinOp)):
+                t = iface.str_template(n)
+                if t is None:
+                    continue
+                m = re.fullmatch(r'\s*%s\[%s\]\s*=\s*%s;\s*' % ((re.escape(iface.PLACEHOLDER),) * 3), t[0])
+                if m and len(t[1]) == 3:
+                    fills.append((n.lineno, ast.unparse(t[1][1]) == iv and nv in {x.id for x in ast.walk(t[1][2]) if isinstance(x, ast.Name)}, ast.unparse(t[1][1]), ast.unparse(t[1][2])))
+    if not fills:
+        raise AnalysisError('%s: the statement that fills the values array was not found' % key0)
+    out.append((key0 + ':values-array-fill', all(f[1] for f in fills), fills[0][0], 'the values array is filled with `array[%s] = %s` inside the loop over enumerate(self.values): slot and part must be the '
+                'loop index and the loop item (__Pyx_PyUnicode_Join reads slots 0..count-1)' % (fills[0][2], fills[0][3])))
+    # ---- "cannot get larger" shortcut
+    top = max(kinds)
+    sc = []
+    for n in ast.walk(gen):
+        if isinstance(n, ast.If) and any(isinstance(x, ast.Name) and x.id == kind_known for x in ast.walk(n.test)) and any(c is calls['kind'] for b in n.orelse for c in ast.walk(b)):
+            lit = None
+            for b in n.body:
+                for c in ast.walk(b):
+                    if isinstance(c, ast.Call) and isinstance(c.func, ast.Attribute) and c.func.attr == 'putln' and c.args and isinstance(c.args[0], ast.JoinedStr):
+                        m = re.search(r'=\s*(\d+)\s*;', ''.join(v.value for v in c.args[0].values if isinstance(v, ast.Constant)))
+                        if m:
+                            lit = int(m.group(1))
+            taken = []
+            for k in sorted(kinds):
+                ev = _KEval(0)
+                taken.append((k, bool(ev.ev(n.test, {kind_known: k}))))
+            ok = lit is not None and all((not t) or (k == top and lit == k) for k, t in taken)
+            sc.append((ok, n.lineno, lit, taken))
+    if sc:
+        ok, line, lit, taken = sc[0]
+        out.append((key0 + ':kind-shortcut', ok, line, 'the kind computation is skipped and the constant %s is emitted when the known kind is in %s; that is only right for the largest kind %d '
+                    '(a narrower text allocated as kind %s is a non-canonical string that compares unequal to the same text)' % (lit, [k for k, t in taken if t], top, lit)))
+    return out
+
+
+def rule_joinpy(ctx):
+    r = Rule('C18-JOINPY', 'JoinedStrNode.generate_evaluation_code: every part is counted in the result length and kind handed to __Pyx_PyUnicode_Join (path analysis of the accounting loop, '
+             'repetition factors, the largest-kind shortcut); UnicodeNode.get_ustring_kind classifies the largest character like CPython (0 ASCII, 1, 2, 4)', floor=12)
+    tree = ctx.parse(EXPRNODES)
+    un = _find_class(tree, 'UnicodeNode', EXPRNODES)
+    gk = _find_method(un, 'get_ustring_kind', EXPRNODES)
+    kinds = set()
+    bad = []
+    table = ustring_kind_table(gk)
+    for c, k in table:
+        kinds.add(k)
+        if k != kind_of_char(c):
+            bad.append((c, k))
+    key = 'ExprNodes.UnicodeNode.get_ustring_kind'
+    for c, k in table:
+        r.inst('%s:0x%x' % (key, c), sample='%s: largest character 0x%x -> kind %r' % (key, c, k))
+    if bad:
+        r.violate(key, EXPRNODES, gk.lineno, 'a literal whose largest character is 0x%x is classified as kind %r, CPython stores it as kind %d%s: the f-string result is allocated too narrow (characters '
+                  'truncated) or too wide (non-canonical string)' % (bad[0][0], bad[0][1], kind_of_char(bad[0][0]), ' (+%d more boundary classes)' % (len(bad) - 1) if len(bad) > 1 else ''))
+    js = _find_class(tree, 'JoinedStrNode', EXPRNODES)
+    for k2, ok, line, msg in joinpy_facts(js, kinds if not bad else {0, 1, 2, 4}):
+        r.inst(k2, sample=k2)
+        if not ok:
+            r.violate(k2, EXPRNODES, line, msg)
+    pc = joinpy_facts(ast.parse(JOINPY_POSITIVE).body[0], {0, 1, 2, 4})
+    r.positive_control({k.rsplit(':', 1)[1] for k, ok, _, _ in pc if not ok} == {'length-accounting', 'literal-kind', 'kind-accounting', 'factors-applied', 'kind-shortcut'},
+                       'clone not counted, literal kind dropped, character formats treated as ASCII, factor ignored for a single index, shortcut for kind 2')
+    return r
+
+
+# --------------------------------------------------------------------------------------------------- C18-TYPES
+# format(x, '') == str(x) for every object; format(i, 'd') == str(i) for an int but format(True, 'd') == '1' and format(1.5, 'd') raises.
+DEFAULT_SPEC_OK = {'int': {'', 'd'}, 'bool': {''}, 'float': {''}}
+
+
+def _class_map(tree):
+    return {n.name: n for n in tree.body if isinstance(n, ast.ClassDef)}
+
+
+def _mro(classes, name, seen=None):
+    """depth-first, left-to-right linearisation with later duplicates removed (exact for the single-inheritance + mixin shapes of PyrexTypes)"""
+    out = []
+    c = classes.get(name)
+    if c is None:
+        return out
+    out.append(name)
+    for b in c.bases:
+        if isinstance(b, ast.Name):
+            for x in _mro(classes, b.id):
+                if x in out:
+                    out.remove(x)
+                out.append(x)
+    return out
+
+
+def _class_attr(classes, mro, attr):
+    for cn in mro:
+        for n in classes[cn].body:
+            if isinstance(n, ast.Assign) and any(isinstance(t, ast.Name) and t.id == attr for t in n.targets):
+                return cn, n.value
+            if isinstance(n, ast.FunctionDef) and n.name == attr:
+                return cn, n
+    return None, None
+
+
+def _python_kind(classes, mro):
+    """python-level type whose str() an f-string of this C type shows: 'bool' / 'int' / 'float' / None"""
+    owner, fn = _class_attr(classes, mro, 'py_type_name')
+    if isinstance(fn, ast.FunctionDef):
+        rets = [n.value.value for n in ast.walk(fn) if isinstance(n, ast.Return) and isinstance(n.value, ast.Constant)]
+        if rets == ['bool']:
+            return 'bool'
+    for flag, kind in (('is_float', 'float'), ('is_int', 'int'), ('is_enum', 'int')):
+        owner, v = _class_attr(classes, mro, flag)
+        if isinstance(v, ast.Constant) and v.value:
+            return kind
+    return None
+
+
+def types_facts(tree, rel=PYREX, cat=None):
+    classes = _class_map(tree)
+    out = []
+    n_spec = 0
+    for name in sorted(classes):
+        mro = _mro(classes, name)
+        owner, fn = _class_attr(classes, mro, 'can_coerce_to_pystring')
+        if not isinstance(fn, ast.FunctionDef):
+            continue
+        rets = [n.value for n in ast.walk(fn) if isinstance(n, ast.Return)]
+        if rets and all(isinstance(v, ast.Constant) and not v.value for v in rets):
+            continue            # never formatted at the C level
+        kind = _python_kind(classes, mro)
+        if kind is None:
+            continue
+        sowner, spec = _class_attr(classes, mro, 'default_format_spec')
+        if not isinstance(spec, ast.Constant):
+            raise AnalysisError('%s.default_format_spec is not a constant' % name)
+        n_spec += 1
+        key = 'PyrexTypes.%s:default_format_spec' % name
+        out.append((key, spec.value in DEFAULT_SPEC_OK[kind], classes[name].lineno,
+                    "%s (python type %s) formats f'{x}' with the default spec %r (inherited from %s); str(x) is format(x, spec) only for spec in %s: f'{x}' of a %s would show %s"
+                    % (name, kind, spec.value, sowner, sorted(DEFAULT_SPEC_OK[kind]), kind, {'bool': "'1'/'0' instead of 'True'/'False'", 'float': 'a %-formatted number instead of repr(x)'}.get(kind, 'a different text'))))
+    if n_spec < 3:
+        raise AnalysisError('only %d C types with C-level string formatting found in PyrexTypes' % n_spec)
+    # ---- bint: the falsy spec goes to the True/False helper, a real spec to the integer formatter
+    for name in sorted(classes):
+        mro = _mro(classes, name)
+        if _python_kind(classes, mro) != 'bool':
+            continue
+        owner, fn = _class_attr(classes, mro, 'convert_to_pystring')
+        if not isinstance(fn, ast.FunctionDef) or owner != name:
+            raise AnalysisError('%s does not define convert_to_pystring' % name)
+        params = [a.arg for a in fn.args.args]
+        if 'format_spec' not in params:
+            raise AnalysisError('%s.convert_to_pystring has no format_spec parameter' % name)
+        for label, spec in (('None', None), ('empty', ''), ('d', 'd')):
+            args = [Obj(p) if p != 'format_spec' else Const(spec) for p in params]
+            res = set()
+            for run, ret in explore_runs(fn, args, {}, {}, {}, lambda nm, a: None):
+                res.add('int-formatter' if isinstance(ret, Obj) and 'super' in ret.path else 'bool-text' if isinstance(ret, Text) else repr(ret))
+            want = 'int-formatter' if spec else 'bool-text'
+            out.append(('PyrexTypes.%s.convert_to_pystring:spec=%s' % (name, label), res == {want}, fn.lineno,
+                        "%s.convert_to_pystring with format spec %r takes the route %s; it must be %s (f'{flag}' is 'True', f'{flag:d}' is '1')" % (name, spec, sorted(res), want)))
+    # ---- text constants of the value-less helpers: str(True), str(False), str(None)
+    for name in sorted(classes):
+        mro = _mro(classes, name)
+        owner, fn = _class_attr(classes, mro, 'convert_to_pystring')
+        if not isinstance(fn, ast.FunctionDef) or owner != name:
+            continue
+        for d in [x for x in ast.walk(fn) if isinstance(x, ast.Dict)]:
+            for k, v in zip(d.keys, d.values):
+                if isinstance(k, ast.Constant) and k.value in ('TRUE_CONST', 'FALSE_CONST'):
+                    texts = [c.value for c in ast.walk(v) if isinstance(c, ast.Constant) and isinstance(c.value, str)]
+                    want = str(k.value == 'TRUE_CONST')
+                    out.append(('PyrexTypes.%s.convert_to_pystring:text:%s' % (name, k.value), texts == [want], fn.lineno,
+                                "%s binds the template variable %s to the text %s; f'{flag}' must show str(%s) == %r" % (name, k.value, texts, want, want)))
+        if any(isinstance(v, ast.Constant) and v.value is True for o, v in [_class_attr(classes, mro, 'is_returncode')]):
+            texts = [c.value for r_ in ast.walk(fn) if isinstance(r_, ast.Return) and r_.value is not None for c in ast.walk(r_.value)
+                     if isinstance(c, ast.Call) and isinstance(c.func, (ast.Name, ast.Attribute)) and ast.unparse(c.func).endswith('EncodedString')
+                     for c in c.args if isinstance(c, ast.Constant)]
+            out.append(('PyrexTypes.%s.convert_to_pystring:text:None' % name, texts == [str(None)], fn.lineno,
+                        "%s (a C return code, None at the Python level) is shown as %s; it must be str(None) == 'None'" % (name, texts)))
+    if cat is not None:
+        from . import s4C18
+        from ..engine import cexpr
+        from ..engine.cutil import strip_c_comments
+        sec = cat.section('TypeConversion.c', 'CBIntToPyUnicode', 'proto')
+        if sec is None:
+            raise AnalysisError('TypeConversion.c::CBIntToPyUnicode.proto not found')
+        text = strip_c_comments(sec.raw).replace('\\\n', ' ')
+        m = re.search(r'#\s*define\s+\{\{\s*\w+\s*\}\}\s*\(\s*(\w+)\s*\)\s*(.*)', text)
+        parts = s4C18._split_ternary(m.group(2)) if m else None
+        if not parts:
+            raise AnalysisError('CBIntToPyUnicode: the macro is not a conditional on its parameter')
+        cond, a, b = parts
+        try:
+            truth = [bool(cexpr.evaluate(s4C18.cx(cond), {m.group(1): v}, calls={'likely': lambda x: x, 'unlikely': lambda x: x})) for v in (0, 1, 2, -1)]
+        except (cexpr.EvalError, s4C18.CParseError) as ex:
+            raise AnalysisError('CBIntToPyUnicode: condition %r: %s' % (cond, ex))
+        sel = [(a if t else b) for t in truth]
+        ok = all(('TRUE_CONST' in s_ and 'FALSE_CONST' not in s_) == (v != 0) and ('FALSE_CONST' in s_ and 'TRUE_CONST' not in s_) == (v == 0) for s_, v in zip(sel, (0, 1, 2, -1)))
+        out.append(('TypeConversion.c::CBIntToPyUnicode:selection', ok, sec.line, "the bint text macro selects %s for the values 0, 1, 2, -1; it must take {{TRUE_CONST}} exactly for non-zero values" % sel))
+    # ---- external typedefs hand themselves on as the type to instantiate the helper for
+    td = classes.get('CTypedefType')
+    if td is None:
+        raise AnalysisError('PyrexTypes.CTypedefType not found')
+    fn = next((n for n in td.body if isinstance(n, ast.FunctionDef) and n.name == 'convert_to_pystring'), None)
+    if fn is None:
+        raise AnalysisError('CTypedefType.convert_to_pystring not found')
+    deleg = [c for c in ast.walk(fn) if isinstance(c, ast.Call) and isinstance(c.func, ast.Attribute) and c.func.attr == 'convert_to_pystring']
+    if not deleg:
+        raise AnalysisError('CTypedefType.convert_to_pystring does not delegate')
+    ok = False
+    for c in deleg:
+        cand = list(c.args[3:4]) + [k.value for k in c.keywords if k.arg == 'name_type']
+        for a in cand:
+            clo = dependency_closure(fn, a)
+            reads_ext = any(_is_self_attr(x, 'typedef_is_external') for x in ast.walk(fn))
+            if 'self' in clo and reads_ext:
+                ok = True
+    out.append(('PyrexTypes.CTypedefType.convert_to_pystring:external-name-type', ok, fn.lineno,
+                'CTypedefType.convert_to_pystring delegates to the base type without ever passing itself as name_type under `typedef_is_external`: the text helper is instantiated for the declared '
+                'base type, which for an external typedef is only approximate (a 64-bit `ctypedef int wide_t` is printed truncated)'))
+    return out
+
+
+TYPES_POSITIVE = '''
+class PyrexType:
+    default_format_spec = None
+    def can_coerce_to_pystring(self, env, format_spec=None):
+        return False
+class CIntLike:
+    default_format_spec = 'd'
+    def can_coerce_to_pystring(self, env, format_spec=None):
+        return self._parse_format(format_spec)[0] is not None
+class CIntType(CIntLike, PyrexType):
+    is_int = 1
+class CBIntType(CIntType):
+    def convert_to_pystring(self, cvalue, code, format_spec=None, name_type=None):
+        if format_spec is not None:
+            return super().convert_to_pystring(cvalue, code, format_spec, name_type)
+        return "%s(%s)" % (name, cvalue)
+    def py_type_name(self):
+        return "bool"
+class CFloatType(PyrexType):
+    is_float = 1
+    default_format_spec = ''
+    def can_coerce_to_pystring(self, env, format_spec=None):
+        return True
+class CTypedefType(PyrexType):
+    def convert_to_pystring(self, cvalue, code, format_spec=None, name_type=None):
+        return self.typedef_base_type.convert_to_pystring(cvalue, code, format_spec, name_type)
+'''
+
+
+def rule_types(ctx):
+    r = Rule('C18-TYPES', "C types with C-level string formatting: the default format spec used for f'{x}' gives str(x) for the python type the C type stands for (int: '' or 'd'; bool, float: ''); "
+             "bint sends exactly the falsy spec to the True/False helper; external typedefs pass themselves on as the type the helper is instantiated for", floor=6)
+    for key, ok, line, msg in types_facts(ctx.parse(PYREX), cat=ctx.cat):
+        r.inst(key, sample=key)
+        if not ok:
+            r.violate(key, 'Cython/Utility/TypeConversion.c' if key.startswith('TypeConversion') else PYREX, line, msg)
+    pc = types_facts(ast.parse(TYPES_POSITIVE), 'pc')
+    bad = {k for k, ok, _, _ in pc if not ok}
+    r.positive_control(bad == {'PyrexTypes.CBIntType:default_format_spec', 'PyrexTypes.CBIntType.convert_to_pystring:spec=empty', 'PyrexTypes.CTypedefType.convert_to_pystring:external-name-type'},
+                       "bint inheriting the default spec 'd', the empty spec reaching the integer formatter, a typedef that never passes itself")
+    return r
+
+
+# --------------------------------------------------------------------------------------------------- C18-CONVSEL
+def convsel_cases(fv_cls, convs):
+    """FormattedValueNode.analyse_types per conversion character: is C-level number formatting selected (self.c_format_spec stored) while a format spec is present?"""
+    fn = _find_method(fv_cls, 'analyse_types', EXPRNODES)
+    cc = _class_consts(fv_cls, 'self')
+    out = []
+    for conv in convs:
+        sel = 0
+        bad = []
+        bad_default = []
+        for run, ret in explore_runs(fn, [Obj('self'), Obj('env')], {'self.conversion_char': Const(conv)}, cc, {}, _conv_marks):
+            stored = run.stored.get('self.c_format_spec')
+            if stored is None or (isinstance(stored, Const) and stored.v is None):
+                continue
+            sel += 1
+            if conv in ('s', 'r', 'a') and run.val.get('T:self.format_spec') is not False:
+                bad.append(_describe_val(run.val))
+            if run.val.get('T:self.format_spec') is False and not (isinstance(stored, Obj) and stored.path.endswith('.default_format_spec') and 'self.value' in stored.path):
+                bad_default.append(repr(stored))
+        out.append(('ExprNodes.%s.analyse_types:c-level:conv=%s' % (fv_cls.name, conv), not bad, fn.lineno, sel,
+                    "with the conversion !%s the format spec applies to the converted *string* (left-aligned, no number codes), but analyse_types selects C-level number formatting on a path "
+                    "with a format spec (%s): f'{c_int!%s:5}' would be right-aligned like a number" % (conv, bad[0] if bad else '', conv)))
+        if conv is None:
+            out.append(('ExprNodes.%s.analyse_types:default-spec' % fv_cls.name, not bad_default, fn.lineno, sel,
+                        "without a format spec the C-level spec is %s instead of the default_format_spec of the value's type: one constant cannot be str() for int, bint and float "
+                        "(f'{flag}' -> '1')" % (bad_default[0] if bad_default else '')))
+    return out
+
+
+def rule_convsel(ctx):
+    r = Rule('C18-CONVSEL', 'FormattedValueNode.analyse_types: per conversion character, C-level number formatting (c_format_spec) is selected together with a format spec only for no conversion / the '
+             'internal int conversion; with !s !r !a only when there is no spec (decision table over all valuations of its tests)', floor=4)
+    fv = _find_class(ctx.parse(EXPRNODES), 'FormattedValueNode', EXPRNODES)
+    convs = conversion_domain(fv)
+    total = 0
+    for key, ok, line, sel, msg in convsel_cases(fv, convs):
+        r.inst(key, sample='%s: %d paths select C-level formatting' % (key, sel))
+        total += sel
+        if not ok:
+            r.violate(key, EXPRNODES, line, msg)
+    if not total:
+        raise AnalysisError('FormattedValueNode.analyse_types: no path stores self.c_format_spec')
+    from . import pC18
+    pcls = ast.parse(pC18.CONV_POSITIVE).body[0]
+    pc = convsel_cases(pcls, [None, 's', 'r'])
+    r.positive_control({k.rsplit('=', 1)[1] for k, ok, _, _, _ in pc if not ok and '=' in k} == {'s', 'r'}, 'C-level formatting selected for !s/!r with a literal spec')
+    return r
+
+
+# --------------------------------------------------------------------------------------------------- C18-STRSEL
+def _converts(cat, cname):
+    """does the C helper `cname` run a conversion (PyObject_Str / Format / Repr) for some argument?  None if it has no C definition"""
+    from ..engine.cutil import strip_c_comments
+    decls = [d for d in cat.lookup(cname) if d.kind in ('func', 'macro')]
+    if not decls:
+        return None
+    return any(re.search(r'\b(PyObject_Str|PyObject_Format|PyObject_Repr|PyObject_Unicode)\s*\(', strip_c_comments(d.body or d.raw or '')) for d in decls)
+
+
+def strsel_facts(opt_cls, converts):
+    """the C helper emitted for str(x): an identity-unless-None helper only on statically-str paths"""
+    fn = _find_method(opt_cls, '_handle_simple_function_unicode', OPTIMIZE)
+    out = []
+    names = {}
+    flagdefs = {}
+    counts = {}
+
+    def helper_consts(v):
+        """'__Pyx_x' | ('__Pyx_a' if T else '__Pyx_b')  ->  [(name, test or None, truth)]"""
+        if isinstance(v, ast.Constant) and isinstance(v.value, str) and v.value.startswith('__Pyx_'):
+            return [(v.value, None, None)]
+        if isinstance(v, ast.IfExp):
+            a, b = helper_consts(v.body), helper_consts(v.orelse)
+            if len(a) == 1 and len(b) == 1 and a[0][1] is None and b[0][1] is None:
+                return [(a[0][0], v.test, True), (b[0][0], v.test, False)]
+        return []
+    for n in walk_no_nested(fn):
+        if isinstance(n, ast.Assign) and len(n.targets) == 1 and isinstance(n.targets[0], ast.Name):
+            counts[n.targets[0].id] = counts.get(n.targets[0].id, 0) + 1
+            flagdefs[n.targets[0].id] = n.value
+            for h, _, _ in helper_consts(n.value):
+                names.setdefault(n.targets[0].id, set()).add(h)
+    flagdefs = {k: v for k, v in flagdefs.items() if counts[k] == 1}
+
+    def str_evidence(text, truth):
+        """the (possibly flag-resolved) test says: the argument is statically a str"""
+        if text in flagdefs:
+            text = ast.unparse(flagdefs[text])
+        return truth is True and text.endswith('.type.is_pystr_type')
+    if len(names) != 1:
+        raise AnalysisError('%s._handle_simple_function_unicode: the helper-name variable was not found (%s)' % (opt_cls.name, sorted(names)))
+    (var, helpers), = names.items()
+    bad = {}
+    seen = set()
+
+    def transfer(n, state):
+        if isinstance(n, ast.Assign) and len(n.targets) == 1 and isinstance(n.targets[0], ast.Name) and n.targets[0].id == var and helper_consts(n.value):
+            return frozenset(f for f in state if not (isinstance(f, tuple) and f[0] == 'CN')) | {('CN', h, ast.unparse(t) if t is not None else None, tr) for h, t, tr in helper_consts(n.value)}
+        if isinstance(n, ast.Return) and n.value is not None and any(isinstance(x, ast.Name) and x.id == var for x in ast.walk(n.value)):
+            for f in state:
+                if isinstance(f, tuple) and f[0] == 'CN':
+                    seen.add(f[1])
+                    is_str = any(isinstance(g, tuple) and len(g) == 4 and g[0] == '?' and str_evidence(g[1], g[2]) for g in state) or (f[2] is not None and str_evidence(f[2], f[3]))
+                    if converts(f[1]) is False and not is_str:
+                        bad[f[1]] = n.lineno
+        return state
+    pyflow.Flow(transfer).run(fn)
+    if seen != helpers:
+        raise AnalysisError('%s._handle_simple_function_unicode: helpers %s assigned, %s emitted' % (opt_cls.name, sorted(helpers), sorted(seen)))
+    for h in sorted(helpers):
+        c = converts(h)
+        if c is None:
+            raise AnalysisError('helper %s has no C definition' % h)
+        out.append(('Optimize.%s._handle_simple_function_unicode:helper:%s' % (opt_cls.name, h), h not in bad, bad.get(h, fn.lineno),
+                    'str(x) is compiled to %s(x) on a path that did not establish that x is statically a str; that helper never calls PyObject_Str (it returns its argument, or the text '
+                    "'None' for None): str(5) would be 5" % h))
+    return out
+
+
+def rule_strsel(ctx):
+    r = Rule('C18-STRSEL', 'str(x) / f"{x}" of a str-typed value: a C helper that performs no conversion (returns its argument unless it is None) is emitted only on paths where the argument is '
+             'statically a str; every other path gets a helper that calls PyObject_Str', floor=2)
+    opt = _find_class(ctx.parse(OPTIMIZE), 'OptimizeBuiltinCalls', OPTIMIZE)
+    cat = ctx.cat
+    for key, ok, line, msg in strsel_facts(opt, lambda h: _converts(cat, h)):
+        r.inst(key, sample=key)
+        if not ok:
+            r.violate(key, OPTIMIZE, line, msg)
+    pc_src = '''
+class OptimizeBuiltinCalls:
+    def _handle_simple_function_unicode(self, node, function, pos_args):
+        arg = pos_args[0]
+        if arg.type.is_pystr_type:
+            cname = "__Pyx_PyObject_Unicode"
+        else:
+            cname = "__Pyx_PyUnicode_Unicode"
+        return ExprNodes.PythonCapiCallNode(node.pos, cname, self.PyObject_Unicode_func_type, args=pos_args)
+'''
+    pc = strsel_facts(ast.parse(pc_src).body[0], lambda h: h == '__Pyx_PyObject_Unicode')
+    r.positive_control([k.rsplit(':', 1)[1] for k, ok, _, _ in pc if not ok] == ['__Pyx_PyUnicode_Unicode'], 'the identity helper selected for arbitrary objects')
     return r
